@@ -151,3 +151,60 @@ crate::harness! {
         extend_to::<4>();
     }
 }
+
+// ---- replay restricted to a target clock never drops a step the target depends on -----------------------------
+
+crate::harness! {
+    #[kani::unwind(6)]
+    fn c15_replay_target_clock_filter() {
+        use shuttle_engine::scheduler::data::random::RandomDataSource;
+        use shuttle_engine::scheduler::data::DataSource;
+        use shuttle_engine::scheduler::{Schedule, ScheduleStep, Scheduler, Task};
+        use shuttle_schedulers::ReplayScheduler;
+        let (_a0, c0) = any_clock::<2>();
+        let (_a1, c1) = any_clock::<2>();
+        let (_at, target) = any_clock::<2>();
+        let dep0 = c0 <= target;
+        let dep1 = c1 <= target;
+        let t0 = Task::verif_stub(TaskId::from(0), c0, None);
+        let t1 = Task::verif_stub(TaskId::from(1), c1, None);
+        // recorded: task 0 steps and draws a random number, then task 1 steps
+        let mut steps = Vec::with_capacity(3);
+        steps.push(ScheduleStep::Task(TaskId::from(0)));
+        steps.push(ScheduleStep::Random);
+        steps.push(ScheduleStep::Task(TaskId::from(1)));
+        let mut r = ReplayScheduler::new_from_schedule(Schedule { seed: 9, steps });
+        r.set_allow_incomplete();
+        r.set_target_clock(target);
+        let e = r.new_execution();
+        std::mem::forget(e);
+        let mut ds = RandomDataSource::initialize(9);
+        ds.reinitialize();
+        let first_draw = ds.next_u64();
+        let offered: [&Task; 2] = [&t0, &t1];
+        let g1 = r.next_task(&offered, None, false);
+        if dep0 {
+            // the target depends on task 0's step: it must not be dropped
+            assert!(g1 == Some(TaskId::from(0)), "C15: replay dropped a step the target clock depends on");
+            let d = r.next_u64();
+            assert!(d == first_draw, "C15/C01: replayed draw differs from the recorded stream");
+            let g2 = r.next_task(&offered, g1, false);
+            if dep1 {
+                assert!(g2 == Some(TaskId::from(1)), "C15: replay dropped a step the target clock depends on");
+            } else {
+                assert!(g2.is_none(), "C15: replay kept a step that is concurrent with the target");
+            }
+            kani::cover!(dep1, "both steps kept");
+        } else {
+            // task 0's step (and the draw it made) is concurrent with the target: skipped
+            if dep1 {
+                assert!(g1 == Some(TaskId::from(1)), "C15: replay dropped a step the target clock depends on");
+                kani::cover!(true, "first step skipped, second kept");
+            } else {
+                assert!(g1.is_none(), "C15: replay kept a step that is concurrent with the target");
+            }
+        }
+        std::mem::forget(r);
+        std::mem::forget((t0, t1));
+    }
+}
